@@ -80,13 +80,10 @@ func (e *Engine) selectContracts(prop string) []*Contract {
 			}
 		}
 	}
-	for len(work) > 0 {
-		c := work[len(work)-1]
-		work = work[:len(work)-1]
-		fn := e.findFunc(c.Pkg, c.Key)
-		if fn == nil {
-			continue
-		}
+	// callees without a contract are executed in-line: the contracts THEY rely on belong to the check as well
+	seenInline := map[*ssa.Function]bool{}
+	var scan func(fn *ssa.Function, depth int)
+	scan = func(fn *ssa.Function, depth int) {
 		for _, b := range fn.Blocks {
 			for _, ins := range b.Instrs {
 				var cc *ssa.CallCommon
@@ -102,13 +99,27 @@ func (e *Engine) selectContracts(prop string) []*Contract {
 					continue
 				}
 				if callee := cc.StaticCallee(); callee != nil && e.inRepo(callee) {
-					if cc2 := e.contractFor(callee); cc2 != nil && !sel[cc2] {
-						sel[cc2] = true
-						work = append(work, cc2)
+					if cc2 := e.contractFor(callee); cc2 != nil {
+						if !sel[cc2] {
+							sel[cc2] = true
+							work = append(work, cc2)
+						}
+					} else if !seenInline[callee] && depth < 4 && len(callee.Blocks) > 0 {
+						seenInline[callee] = true
+						scan(callee, depth+1)
 					}
 				}
 			}
 		}
+	}
+	for len(work) > 0 {
+		c := work[len(work)-1]
+		work = work[:len(work)-1]
+		fn := e.findFunc(c.Pkg, c.Key)
+		if fn == nil {
+			continue
+		}
+		scan(fn, 0)
 	}
 	var out []*Contract
 	for c := range sel {
@@ -162,6 +173,12 @@ func cmdCheck(args []string) int {
 		obls = append(obls, u.Obls...)
 		funcs = append(funcs, shortPkg(c.Pkg)+"."+c.Key)
 		hashes[shortPkg(c.Pkg)+"."+c.Key] = c.Hash()
+		if prop != "C20" {
+			// variables shared with goroutines the function starts (C20 scans every function of the repository)
+			if fn := e.findFunc(c.Pkg, c.Key); fn != nil {
+				obls = append(obls, e.captureObligations(fn, []string{prop})...)
+			}
+		}
 	}
 	// package initialisers establish the `global` facts tagged with this property
 	initCons := map[string]*Contract{}
